@@ -144,6 +144,22 @@ def check(F, run, tier):
                     t = ("op", "!=", t[3], t[2])
                 norm.add(t)
             good = norm == want
+    if not loops:
+        # algorithm form: count = distance(begin, find_if(entries, e -> e.filenameOffset == 0xFFFFFFFF))
+        from ..through import searches
+        from .c05 import alias_defs, resolve
+        for x in searches(F, cv):
+            if x["kind"] == "algo:find_if" and x["range"] == ("mem", ("this",), "m_IndexEntries"):
+                pr = x["pred"]
+                pred_ok = pr[0] == "op" and pr[1] == "==" and {pr[2], pr[3]} == {("mem", x["elem"], "filenameOffset"), ("const", 0xffffffff)}
+                ft = cv.term(x["node"]["id"])
+                adefs = alias_defs(cv)
+                for v, t0 in adefs.items():
+                    t1 = resolve(t0, {k: w for k, w in adefs.items() if k != v})
+                    if t1[0] == "call" and t1[1] == "std::distance" and len(t1[3]) == 2 and t1[3][1] == ft and t1[3][0][0] == "call" \
+                            and t1[3][0][2] == x["range"] and t1[3][0][1].split("::")[-1] in ("begin", "cbegin"):
+                        counter = v
+                good = pred_ok and counter is not None
     eng = Engine(F, S)
     eng.analyze(cv, frozenset())
     ref = [nd for nd in cv.nodes if nd["k"] == "CXXThrowExpr"]
